@@ -336,8 +336,8 @@ def A.burst (F : Nat) (Q : Nat → ℚ) (size : Int → Nat) (ws : List (Nat × 
 
 variable (F : Nat) (size : Int → Nat) (cfg : DRR.Cfg ℚ) (Lmax P : Nat)
 
-/-- the quantum of a class (0 for a class that is not declared) -/
-def qOf (c : Nat) : ℚ := (DRR.quantum cfg c).getD 0
+/-- the quantum of a class (`MIN_QUANTUM` for a class that is not declared: it has none) -/
+def qOf (c : Nat) : ℚ := (DRR.quantum cfg c).getD 1500
 
 /-- a packet of the workload: its flow is one of the `F` classes, it has at most `Lmax` bytes -/
 def PktOK (id : Int) : Prop := flow id < F ∧ size id ≤ Lmax
@@ -395,7 +395,7 @@ structure AInv (a : A) (now : ℚ) : Prop where
   cntOK : ∀ f, f < F → a.cnt f = ((a.items f).length : Nat) + holCnt a f + heldCnt flow a f
   ccntOK : ∀ f, f < F → a.ccnt f = a.cnt f + unbookedCnt flow a f
   /-- the packets in `stores[f]` and the parked head of class `f` are packets of flow `f` of at most `Lmax` bytes -/
-  flowOK : ∀ f, f < F → ∀ i ∈ a.items f, flow i = f
+  flowOK : ∀ f, f < F → ∀ i ∈ a.items f, flow i = f ∧ size i ≤ Lmax
   holOK : ∀ f, f < F → ∀ i, a.hol f = some i → flow i = f ∧ size i ≤ Lmax
   /-- the dict keys are flows; a flow that is not a key yet has empty records -/
   keysOK : (∀ f ∈ a.keys, f < F) ∧ ∀ f, f < F → f ∉ a.keys → a.items f = [] ∧ a.cnt f = 0 ∧ a.byt f = 0
